@@ -5,6 +5,8 @@
 -/
 import ModVerif.Spec.ZipSpec
 import ModVerif.Proofs.ZipCheckFiles
+import ModVerif.Proofs.ZipNameOK
+import ModVerif.Proofs.ZipSubmodule
 namespace ModVerif.Props.C17
 open ModVerif ModVerif.PathClean ModVerif.Zip ModVerif.ZipSpec ModVerif.Proofs.Zip
 
@@ -31,6 +33,88 @@ theorem checkFiles_exactly_once (E : Env) (files : List FileInfo) (ge124 : Bool)
     (hnd : (files.map (·.path)).Nodup) (f : FileInfo) (hf : f ∈ files) :
     (reported (checkFiles E files ge124)).count f.path = 1 := by
   rw [(checkFiles_partition E files ge124 hnd).count_eq]
-  exact List.count_eq_one_of_mem hnd (List.mem_map_of_mem (f := fun x : FileInfo => x.path) hf)
+  rw [List.Nodup.count hnd, if_pos (List.mem_map_of_mem (f := fun x : FileInfo => x.path) hf)]
+
+
+/-- Nested modules: the test `inSubmodule` of the file check holds for a path exactly when one of its
+    proper directory prefixes (ending in a slash) is a module root of the list, i.e. holds a regular
+    file named go.mod in any case. -/
+theorem submodule_rule (files : List FileInfo) (p : Bytes) :
+    inSubmodule (prePass files).haveGoMod p = true ↔ ∃ d ∈ dirPrefixes p, IsModuleDir files d :=
+  inSubmodule_iff files p
+
+/-- the directory prefixes of a path are exactly its prefixes that end in a slash -/
+theorem dirPrefixes_spec (p d : Bytes) : d ∈ dirPrefixes p ↔ ∃ a b, p = a ++ 47 :: b ∧ d = a ++ [47] :=
+  mem_dirPrefixes_iff p d
+
+/-- Everything reported as valid is a regular file of the input whose path is clean, relative,
+    accepted by `CheckFilePath`, not in a vendored package (for the given go version), not inside a
+    nested module, not `.hg_archival.txt`, not a mis-cased or misplaced go.mod, and within the go.mod /
+    LICENSE size limits. -/
+theorem valid_files_rules (E : Env) (files : List FileInfo) (ge124 : Bool) :
+    ∀ p ∈ (checkFiles E files ge124).valid, ∃ f ∈ files, f.path = p ∧ f.mode = .regular ∧
+      pathClean p = p ∧ isAbs p = false ∧ isVendoredPackage p ge124 = false ∧
+      (¬ ∃ d ∈ dirPrefixes p, IsModuleDir files d) ∧ p ≠ hgArchivalName ∧ E.cfp p = true ∧
+      (equalFoldGoMod (lastElem p) = true → p = goModName) ∧
+      (p = goModName → f.size ≤ MaxGoMod) ∧ (p = licenseName → f.size ≤ MaxLICENSE) := by
+  intro p hp
+  obtain ⟨hv1, hv2⟩ := checkFilesSt_validFiles E ge124 files
+  have hinv := checkFilesSt_validInv E ge124 files
+  have hp' : p ∈ (checkFilesSt E files ge124).cf.valid := hp
+  rw [hv2] at hp'
+  obtain ⟨f, hf, rfl⟩ := List.mem_map.mp hp'
+  have ok := hinv.nameOK f hf
+  refine ⟨f, (hv1 f hf).1, rfl, ok.regular, ok.clean, ok.notAbs, ok.notVendored, ?_, ok.notHg, ok.cfp,
+    valid_goMod_is_root E ge124 files f (hv1 f hf).1 ok, ok.goModSize, ok.licenseSize⟩
+  intro hsub
+  have := (inSubmodule_iff files f.path).mpr hsub
+  rw [ok.notInSubmodule] at this; cases this
+
+/-- no two valid files have the same case-folded path -/
+theorem valid_files_fold_distinct (E : Env) (files : List FileInfo) (ge124 : Bool) :
+    (checkFiles E files ge124).valid.Pairwise (fun a b => E.toFold a ≠ E.toFold b) := by
+  obtain ⟨_, hv2⟩ := checkFilesSt_validFiles E ge124 files
+  have hinv := checkFilesSt_validInv E ge124 files
+  show (checkFilesSt E files ge124).cf.valid.Pairwise _
+  rw [hv2, List.pairwise_map]
+  exact hinv.foldDistinct
+
+/-- The vendoring rule in its two variants on the documented examples (golang.org/issue/37397):
+    `vendor/modules.txt` is omitted only from go 1.24 on; `pkg/vendor/vendor.go` was (wrongly) taken for
+    vendored before go 1.24 and is kept from 1.24 on; `pkg/vendor/foo/foo.go` and `vendor/a/b.go` are
+    vendored in both; `vendor/x.go` in neither. -/
+theorem vendor_rule_examples :
+    isVendoredPackage (B "vendor/modules.txt") true = true ∧ isVendoredPackage (B "vendor/modules.txt") false = false ∧
+    isVendoredPackage (B "pkg/vendor/vendor.go") false = true ∧ isVendoredPackage (B "pkg/vendor/vendor.go") true = false ∧
+    isVendoredPackage (B "pkg/vendor/foo/foo.go") false = true ∧ isVendoredPackage (B "pkg/vendor/foo/foo.go") true = true ∧
+    isVendoredPackage (B "vendor/a/b.go") false = true ∧ isVendoredPackage (B "vendor/a/b.go") true = true ∧
+    isVendoredPackage (B "vendor/x.go") false = false ∧ isVendoredPackage (B "vendor/x.go") true = false := by
+  decide +kernel
+
+/-- Observation O2: with a path listed three times, the third occurrence appears in none of the three
+    lists (the error reports are de-duplicated by path), so the partition needs duplicate-free input. -/
+theorem checkFiles_duplicates :
+    let E : Env := { cfp := fun p => !p.isEmpty, toFold := lowerAscii, modOK := fun _ _ => true }
+    let f : FileInfo := ⟨B "a.go", .regular, 1, B "x", false⟩
+    reported (checkFiles E [f, f, f] false) = [B "a.go", B "a.go"] := by
+  decide +kernel
+
+/-! ### non-vacuity -/
+
+def exEnv : Env := { cfp := fun p => !p.isEmpty, toFold := lowerAscii, modOK := fun _ _ => true }
+
+def exFiles : List FileInfo :=
+  [⟨B "go.mod", .regular, 2, B "hi", false⟩, ⟨B "a/b.go", .regular, 1, B "x", false⟩, ⟨B "a/B.go", .regular, 1, B "x", false⟩,
+   ⟨B "sub/go.mod", .regular, 0, [], false⟩, ⟨B "sub/c.go", .regular, 1, B "y", false⟩,
+   ⟨B "vendor/p/q.go", .regular, 1, B "z", false⟩, ⟨B "link", .symlink, 0, [], false⟩, ⟨B "./x", .regular, 0, [], false⟩]
+
+example : (exFiles.map (·.path)).Nodup := by decide +kernel
+
+example : checkFiles exEnv exFiles false =
+    { valid := [B "go.mod", B "a/b.go"],
+      omitted := [(B "sub/go.mod", .submoduleFile), (B "sub/c.go", .submoduleFile), (B "vendor/p/q.go", .vendored), (B "link", .symlink)],
+      invalid := [(B "a/B.go", .caseCollision), (B "./x", .notClean)], sizeError := false } := by decide +kernel
+
+example : IsModuleDir exFiles (B "sub/") := ⟨⟨B "sub/go.mod", .regular, 0, [], false⟩, by decide +kernel, rfl, by decide +kernel, by decide +kernel⟩
 
 end ModVerif.Props.C17
